@@ -196,197 +196,311 @@ Qed.
 Lemma SubK_init c c0 : SubK c0 (init c).
 Proof. constructor; cbn; try discriminate. Qed.
 
+(* a closed channel belongs to a subscription that was started *)
+Definition InvCl (s : state) : Prop :=
+  forall b, In b (subs s) -> sub_closed b = true \/ sub_registered b = true -> sub_started b = true.
+
+Lemma In_bc m l b :
+  In b (broadcast m l) ->
+  exists b0, In b0 l /\ sub_closed b = sub_closed b0 /\ sub_registered b = sub_registered b0 /\
+             (sub_started b0 = true -> sub_started b = true).
+Proof.
+  change (broadcast m l) with (map (bc1 m) l). intros H. apply in_map_iff in H as (b0 & <- & Hin).
+  exists b0. destruct (bc1_flags m b0) as (_ & _ & Fcl & Fr & _ & Fs & _). auto.
+Qed.
+
+Lemma InvCl_step c s l s' : InvCl s -> step c s l = Some s' -> InvCl s'.
+Proof.
+  intros IS H. unfold step in H.
+  destruct l; cbn [step0] in H; unfold start_shutdown, store_state, restore_finals in H;
+    step_cases H; inversion H; subst; clear H; unfold InvCl in *; simp_st.
+  all: try exact IS.
+  all: try (intros b Hb Hc; apply In_bc in Hb as (b0 & Hin & E1 & E2 & E3); apply E3, (IS b0 Hin);
+            rewrite <- E1, <- E2; exact Hc).
+  all: try (intros b Hb Hc; apply in_app_or in Hb as [Hb|[<-|[]]]; [now apply IS|destruct Hc as [Hc|Hc]; discriminate Hc]).
+  all: try (intros b Hb Hc; apply In_set_sub in Hb as [->|Hb]; [|now apply IS]; cbn in *;
+            first [reflexivity
+                  | match goal with E : find_sub _ _ = Some ?b1 |- _ => apply (IS b1 (find_sub_In _ _ _ E) Hc) end]).
+Qed.
+
+Lemma InvCl_reachable c s : reachable_sup c s -> InvCl s.
+Proof. apply sup_inv; [intros b []|apply InvCl_step]. Qed.
+
 (* ---------------------------------------------------------------- the entry of a newly started runnable *)
 
-Definition Mprop (c0 j : nat) (s : state) : Prop :=
-  forall p q b, split_at (is_call j) (rev (hist s)) = Some (p, q) ->
-    existsb (is_recv c0) p = true -> existsb (is_cancel c0) p = false ->
-    find_sub c0 (subs s) = Some b ->
-    existsb (has_entry j) (sub_buf b) = true \/ existsb (is_recv_entry c0 j) q = true \/
-    10 <= count_if (is_recv c0) q + length (sub_buf b).
-
-Lemma split_at_parts f : forall t p q, split_at f t = Some (p, q) -> exists x, t = p ++ x :: q.
+Lemma split_at_parts f : forall t p q, split_at f t = Some (p, q) -> exists x, t = p ++ x :: q /\ f x = true.
 Proof.
   induction t as [|a t IH]; intros p q H; cbn [split_at] in H; [discriminate|].
-  destruct (f a).
+  destruct (f a) eqn:Fa.
   - injection H as <- <-. now exists a.
   - destruct (split_at f t) as [[p0 q0]|]; [|discriminate]. injection H as <- <-.
-    destruct (IH _ _ eq_refl) as (x & ->). now exists x.
+    destruct (IH _ _ eq_refl) as (x & -> & Fx). now exists x.
 Qed.
 
-Lemma split_prefix_in f g t p q :
-  split_at f t = Some (p, q) -> existsb g p = true -> existsb g t = true.
+Lemma split_at_none f : forall t, existsb f t = false -> split_at f t = None.
 Proof.
-  intros H Hp. destruct (split_at_parts _ _ _ _ H) as (x & ->). rewrite existsb_app, Hp. reflexivity.
+  induction t as [|a t IH]; intros H; cbn [split_at existsb] in *; [reflexivity|].
+  apply orb_false_iff in H as [-> H]. now rewrite (IH H).
 Qed.
 
-(* the subscriber's channel keeps or extends its content; the new event is not one of its receives *)
-Lemma M_ext c0 j s s' :
-  (forall b', find_sub c0 (subs s') = Some b' ->
-              exists b ext, find_sub c0 (subs s) = Some b /\ sub_buf b' = sub_buf b ++ ext) ->
+Lemma is_call_mem j h : existsb (is_call j) h = mem_ev (ERunCall j) h.
+Proof.
+  unfold mem_ev. induction h as [|e h IH]; [reflexivity|]. cbn [existsb]. rewrite IH. f_equal.
+  destruct e; try reflexivity. cbn. apply Nat.eqb_sym.
+Qed.
+
+(* a snapshot with j's entry is in c0's channel or was taken by it, or the channel may have overflowed *)
+Definition Good (c0 j : nat) (b : subscriber) (h : list event) : Prop :=
+  existsb (has_entry j) (sub_buf b) = true \/ existsb (is_recv_entry c0 j) h = true \/
+  10 <= count_if (is_recv c0) h + length (sub_buf b).
+
+(* c0's context ended before j's Run was invoked *)
+Definition Bad (c0 j : nat) (b : subscriber) (h : list event) : Prop :=
+  match split_at (is_call j) (rev h) with
+  | Some (p, _) => existsb (is_cancel c0) p = true
+  | None => sub_cancelled b = true
+  end.
+
+Definition Nprop (c0 j : nat) (s : state) : Prop :=
+  forall b, find_sub c0 (subs s) = Some b -> sub_started b = true -> stored (rn_at s j) ->
+            Good c0 j b (hist s) \/ Bad c0 j b (hist s).
+
+Lemma count_if_cons {A} (f : A -> bool) x l : count_if f (x :: l) = (if f x then 1 else 0) + count_if f l.
+Proof. unfold count_if. cbn [filter]. destruct (f x); reflexivity. Qed.
+
+Lemma Good_ext c0 j b b' h h' ext :
+  sub_buf b' = sub_buf b ++ ext ->
+  (h' = h \/ exists e, h' = e :: h /\ is_recv c0 e = false) ->
+  Good c0 j b h -> Good c0 j b' h'.
+Proof.
+  intros Hb Hh [G|[G|G]]; unfold Good; rewrite Hb, existsb_app, app_length.
+  - left. now rewrite G.
+  - right; left. destruct Hh as [->|(e & -> & _)]; [exact G|]. cbn [existsb]. rewrite G. apply orb_true_r.
+  - right; right. destruct Hh as [->|(e & -> & He)]; [lia|]. rewrite count_if_cons, He. lia.
+Qed.
+
+Lemma Bad_ext c0 j b b' h h' :
+  (sub_cancelled b = true -> sub_cancelled b' = true) ->
+  (h' = h \/ exists e, h' = e :: h /\ (is_call j e = false \/ split_at (is_call j) (rev h) <> None)) ->
+  Bad c0 j b h -> Bad c0 j b' h'.
+Proof.
+  intros Hc Hh. unfold Bad. destruct Hh as [->|(e & -> & He)].
+  - destruct (split_at (is_call j) (rev h)) as [[p q]|]; auto.
+  - cbn [rev]. rewrite split_at_snoc. destruct (split_at (is_call j) (rev h)) as [[p q]|]; [auto|].
+    destruct He as [->|X]; [auto|congruence].
+Qed.
+
+(* nothing happens to c0's channel beyond an extension, no new store for j, the new event is harmless *)
+Lemma N_ext c0 j s s' :
+  (forall b', find_sub c0 (subs s') = Some b' -> sub_started b' = true ->
+              exists b ext, find_sub c0 (subs s) = Some b /\ sub_started b = true /\
+                            sub_buf b' = sub_buf b ++ ext /\ (sub_cancelled b = true -> sub_cancelled b' = true)) ->
+  (stored (rn_at s' j) -> stored (rn_at s j)) ->
   (hist s' = hist s \/
    exists e, hist s' = e :: hist s /\ is_recv c0 e = false /\
              (is_call j e = false \/ split_at (is_call j) (rev (hist s)) <> None)) ->
-  Mprop c0 j s -> Mprop c0 j s'.
+  Nprop c0 j s -> Nprop c0 j s'.
 Proof.
-  intros Hb Eh M p q b' Hsp Hr Hc Hf. destruct (Hb b' Hf) as (b & ext & Hfb & Hbuf). rewrite Hbuf.
-  rewrite existsb_app, app_length.
-  destruct Eh as [Eh|(e & Eh & He & Hcall)]; rewrite Eh in Hsp.
-  - destruct (M p q b Hsp Hr Hc Hfb) as [X|[X|X]]; [left; now rewrite X|right; now left|right; right; lia].
-  - cbn [rev] in Hsp. rewrite split_at_snoc in Hsp.
-    destruct (split_at (is_call j) (rev (hist s))) as [[p0 q0]|] eqn:E0.
-    + injection Hsp as <- <-. rewrite existsb_snoc, count_if_snoc.
-      destruct (M p0 q0 b E0 Hr Hc Hfb) as [X|[X|X]];
-        [left; now rewrite X|right; left; now rewrite X|right; right; lia].
-    + destruct Hcall as [X|X]; [rewrite X in Hsp; discriminate Hsp|congruence].
+  intros Hb Hs Hh N b' Hf' Hst' Hsto. destruct (Hb b' Hf' Hst') as (b & ext & Hf & Hst & Hbuf & Hc).
+  destruct (N b Hf Hst (Hs Hsto)) as [G|B].
+  - left. eapply Good_ext; [exact Hbuf| |exact G].
+    destruct Hh as [->|(e & -> & He & _)]; [now left|right; now exists e].
+  - right. eapply Bad_ext; [exact Hc| |exact B].
+    destruct Hh as [->|(e & -> & _ & He)]; [now left|right; now exists e].
 Qed.
 
-(* startRunnable of Stateable j broadcasts a map that has j's entry *)
-Lemma M_arm c0 j s s' m :
-  split_at (is_call j) (rev (hist s)) = None ->
-  hist s' = ERunCall j :: hist s -> subs s' = broadcast m (subs s) ->
+Lemma same_sub_N c0 s s' :
+  find_sub c0 (subs s') = find_sub c0 (subs s) ->
+  forall b', find_sub c0 (subs s') = Some b' -> sub_started b' = true ->
+             exists b ext, find_sub c0 (subs s) = Some b /\ sub_started b = true /\
+                           sub_buf b' = sub_buf b ++ ext /\ (sub_cancelled b = true -> sub_cancelled b' = true).
+Proof. intros E b' H Hs. exists b', []. rewrite <- E, app_nil_r. auto. Qed.
+
+(* startRunnable of Stateable j: store and broadcast *)
+Lemma N_store c c0 j s s' m :
+  reachable_sup c s -> rn_at s j = RnLaunched ->
+  hist s' = hist s -> subs s' = broadcast m (subs s) ->
   has_entry j m = true -> existsb (fun o => match o with Some _ => true | None => false end) m = true ->
-  SubK c0 s -> Mprop c0 j s'.
+  SubK c0 s -> Nprop c0 j s'.
 Proof.
-  intros E0 Eh Es Hm Hex K p q b' Hsp Hr Hc Hf.
-  rewrite Eh in Hsp. cbn [rev] in Hsp. rewrite split_at_snoc, E0 in Hsp. cbn [is_call] in Hsp.
-  rewrite Nat.eqb_refl in Hsp. injection Hsp as <- <-.
-  rewrite existsb_rev' in Hr, Hc.
-  destruct (k_rcv _ _ K Hr) as (b & Hb & Hst).
-  assert (Hreg : sub_registered b = true).
-  { destruct (k_reg _ _ K b Hb Hst) as [X|X]; [exact X|]. pose proof (k_can _ _ K b Hb X). congruence. }
-  rewrite Es, find_sub_broadcast, Hb in Hf. cbn [option_map] in Hf. injection Hf as <-.
-  unfold bc1. rewrite Hreg, Hex. cbn [andb]. rewrite andb_true_r.
-  destruct (Nat.ltb (length (sub_buf b)) 10) eqn:L; cbn [sub_buf].
-  - left. now rewrite existsb_snoc, Hm, orb_true_r.
-  - right; right. apply Nat.ltb_ge in L. cbn. lia.
+  intros Hre Ern Eh Es Hm Hex K b' Hf' Hst' _.
+  rewrite Es, find_sub_broadcast in Hf'. destruct (find_sub c0 (subs s)) as [b|] eqn:Hb; [|discriminate Hf'].
+  cbn [option_map] in Hf'. injection Hf' as <-. rewrite Eh.
+  destruct (sub_registered b) eqn:Hreg.
+  - left. unfold Good, bc1. rewrite Hreg, Hex. cbn [andb]. rewrite andb_true_r.
+    destruct (Nat.ltb (length (sub_buf b)) 10) eqn:L; cbn [sub_buf].
+    + left. now rewrite existsb_snoc, Hm, orb_true_r.
+    + right; right. apply Nat.ltb_ge in L. lia.
+  - right. destruct (bc1_flags m b) as (_ & Fc & _ & _ & Fn & _ & _). rewrite (Fn Hreg) in *.
+    unfold Bad. rewrite split_at_none.
+    + destruct (k_reg _ _ K b Hb Hst') as [X|X]; [congruence|exact X].
+    + rewrite existsb_rev', is_call_mem. destruct (mem_ev (ERunCall j) (hist s)) eqn:M; [|reflexivity].
+      pose proof (ig_called _ _ (InvGate_reachable _ _ Hre) j M) as R. rewrite Ern in R. contradiction.
 Qed.
 
 (* the subscriber takes the oldest snapshot from its channel *)
-Lemma M_recv c0 j s s' b b' m q' :
+Lemma N_recv c0 j s s' b b' m q' :
   find_sub c0 (subs s) = Some b -> sub_buf b = m :: q' ->
-  find_sub c0 (subs s') = Some b' -> sub_buf b' = q' -> hist s' = ESubRecv c0 m :: hist s ->
-  Mprop c0 j s -> Mprop c0 j s'.
+  find_sub c0 (subs s') = Some b' -> sub_buf b' = q' -> sub_started b' = sub_started b ->
+  sub_cancelled b' = sub_cancelled b -> rn s' = rn s ->
+  hist s' = ESubRecv c0 m :: hist s -> Nprop c0 j s -> Nprop c0 j s'.
 Proof.
-  intros Hb Hbuf Hb' Hbuf' Eh M p q x Hsp Hr Hc Hf. rewrite Hb' in Hf. injection Hf as <-. rewrite Hbuf'.
-  rewrite Eh in Hsp. cbn [rev] in Hsp. rewrite split_at_snoc in Hsp.
-  destruct (split_at (is_call j) (rev (hist s))) as [[p0 q0]|] eqn:E0; [|discriminate Hsp].
-  injection Hsp as <- <-. rewrite existsb_snoc, count_if_snoc. cbn [is_recv_entry is_recv]. rewrite Nat.eqb_refl.
-  cbn [andb]. destruct (M p0 q0 b E0 Hr Hc Hb) as [X|[X|X]].
-  - rewrite Hbuf in X. cbn [existsb] in X. apply orb_true_iff in X as [X|X].
-    + right; left. rewrite X. apply orb_true_r.
-    + now left.
-  - right; left. now rewrite X.
-  - right; right. rewrite Hbuf in X. cbn [length] in X. lia.
+  intros Hb Hbuf Hb' Hbuf' Est Ec Er Eh N x Hf Hst Hsto. rewrite Hb' in Hf. injection Hf as <-.
+  rewrite Est in Hst. unfold rn_at in Hsto. rewrite Er in Hsto.
+  destruct (N b Hb Hst Hsto) as [[G|[G|G]]|B].
+  - left. unfold Good. rewrite Hbuf in G. cbn [existsb] in G. apply orb_true_iff in G as [G|G].
+    + right; left. rewrite Eh. cbn [existsb is_recv_entry]. now rewrite Nat.eqb_refl, G.
+    + left. now rewrite Hbuf'.
+  - left. right; left. rewrite Eh. cbn [existsb]. rewrite G. apply orb_true_r.
+  - left. right; right. rewrite Eh, count_if_cons, Hbuf'. cbn [is_recv]. rewrite Nat.eqb_refl.
+    rewrite Hbuf in G. cbn [length] in G. lia.
+  - right. rewrite Eh. eapply (Bad_ext c0 j b b'); [now rewrite Ec| |exact B]. right. eexists. split; [reflexivity|now left].
 Qed.
 
-Lemma same_sub_ext c0 s s' :
-  find_sub c0 (subs s') = find_sub c0 (subs s) ->
-  forall b', find_sub c0 (subs s') = Some b' ->
-             exists b ext, find_sub c0 (subs s) = Some b /\ sub_buf b' = sub_buf b ++ ext.
-Proof. intros E b' H. exists b', []. rewrite <- E, app_nil_r. now split. Qed.
-
-Lemma bcast_sub_ext c0 s s' m :
-  subs s' = broadcast m (subs s) ->
-  forall b', find_sub c0 (subs s') = Some b' ->
-             exists b ext, find_sub c0 (subs s) = Some b /\ sub_buf b' = sub_buf b ++ ext.
+Lemma count_if_rev {A} (f : A -> bool) l : count_if f (rev l) = count_if f l.
 Proof.
-  intros Es b' H. rewrite Es, find_sub_broadcast in H.
-  destruct (find_sub c0 (subs s)) as [b|]; [|discriminate H]. cbn [option_map] in H. injection H as <-.
-  destruct (bc1_flags m b) as (_ & _ & _ & _ & _ & _ & [X|X]).
-  - exists b, []. rewrite X, app_nil_r. now split.
-  - exists b, [m]. now split.
+  induction l as [|a l IH]; [reflexivity|]. cbn [rev]. rewrite count_if_snoc, count_if_cons, IH. lia.
 Qed.
 
-Ltac he_other :=
+(* j's Run is invoked *)
+Lemma N_call c0 j s s' :
+  find_sub c0 (subs s') = find_sub c0 (subs s) -> hist s' = ERunCall j :: hist s ->
+  (stored (rn_at s' j) -> stored (rn_at s j)) -> SubK c0 s -> Nprop c0 j s -> Nprop c0 j s'.
+Proof.
+  intros Ef Eh Hs K N b Hf Hst Hsto. rewrite Ef in Hf. destruct (N b Hf Hst (Hs Hsto)) as [G|B].
+  - left. rewrite Eh. eapply Good_ext; [symmetry; apply app_nil_r| |exact G]. right. now eexists.
+  - right. unfold Bad in *. rewrite Eh. cbn [rev]. rewrite split_at_snoc.
+    destruct (split_at (is_call j) (rev (hist s))) as [[p q]|]; [exact B|].
+    cbn [is_call]. rewrite Nat.eqb_refl, existsb_rev'. exact (k_can _ _ K b Hf B).
+Qed.
+
+Lemma bcast_sub_N c c0 s s' m :
+  reachable_sup c s -> subs s' = broadcast m (subs s) ->
+  forall b', find_sub c0 (subs s') = Some b' -> sub_started b' = true ->
+             exists b ext, find_sub c0 (subs s) = Some b /\ sub_started b = true /\
+                           sub_buf b' = sub_buf b ++ ext /\ (sub_cancelled b = true -> sub_cancelled b' = true).
+Proof.
+  intros Hre Es b' H Hst. rewrite Es, find_sub_broadcast in H.
+  destruct (find_sub c0 (subs s)) as [b|] eqn:Hb; [|discriminate H]. cbn [option_map] in H. injection H as <-.
+  destruct (bc1_flags m b) as (_ & Fc & _ & Fr & Fn & _ & Fb).
+  assert (Sb : sub_started b = true).
+  { destruct (sub_registered b) eqn:R.
+    - apply (InvCl_reachable _ _ Hre b (find_sub_In _ _ _ Hb)). now right.
+    - now rewrite (Fn eq_refl) in Hst. }
+  destruct Fb as [X|X].
+  - exists b, []. rewrite X, app_nil_r, Fc. auto.
+  - exists b, [m]. rewrite Fc. auto.
+Qed.
+
+Ltac stored_tac i j :=
+  unfold rn_at; simp_st; intros X; destruct (Nat.eq_dec i j) as [->|?];
+  [ first [ match goal with E : rn_at _ _ = _ |- _ => unfold rn_at in E; rewrite E; exact Logic.I end
+          | match type of X with stored (get RnDone (upd ?l ?i0 ?p) _) =>
+              destruct (get_upd_cases RnDone l i0 i0 p) as [E|E]; rewrite E in X; [contradiction|exact X] end ]
+  | now rewrite get_upd_other in X ].
+
+Ltac hn_other :=
   first [ left; reflexivity
         | right; eexists; split; [reflexivity|split; [reflexivity|left; reflexivity]] ].
 
-Lemma M_step c c0 j s l s' :
-  stateable (spec c j) = true -> reachable_sup c s -> SubK c0 s -> Mprop c0 j s ->
-  step c s l = Some s' -> Mprop c0 j s'.
+Lemma stored_upd_other (s : state) i p j : i <> j -> stored (get RnDone (upd (rn s) i p) j) -> stored (rn_at s j).
+Proof. intros N H. unfold rn_at. now rewrite get_upd_other in H. Qed.
+
+Lemma N_step c c0 j s l s' :
+  stateable (spec c j) = true -> reachable_sup c s -> SubK c0 s -> Nprop c0 j s ->
+  step c s l = Some s' -> Nprop c0 j s'.
 Proof.
-  intros Hst Hre K M H. pose proof (InvMon_reachable _ _ Hre) as IM.
+  intros Hst Hre K N H. pose proof (InvMon_reachable _ _ Hre) as IM.
   destruct (im_len _ _ IM) as (_ & _ & Lsmap & _). unfold step in H.
   destruct l; cbn [step0] in H; unfold start_shutdown, store_state, restore_finals in H;
     step_cases H; inversion H; subst; clear H.
-  all: try (apply (M_ext c0 j s); [apply same_sub_ext; reflexivity|he_other|exact M]; fail).
-  - (* RunCall of a Stateable runnable: store and broadcast *)
-    apply Nat.ltb_lt in Heqb.
-    destruct (split_at (is_call j) (rev (hist s))) as [pq|] eqn:E0.
-    + apply (M_ext c0 j s); [eapply bcast_sub_ext; reflexivity| |exact M].
-      right. eexists. split; [reflexivity|]. split; [reflexivity|]. right. rewrite E0. discriminate.
-    + destruct (Nat.eq_dec i j) as [->|N].
-      * eapply (M_arm c0 j s); [exact E0|reflexivity|reflexivity| | |exact K].
-        -- unfold has_entry. change (nth j (upd (smap s) j (Some (cur_at s j))) None)
-             with (get None (upd (smap s) j (Some (cur_at s j))) j).
-           rewrite get_upd_same; [reflexivity|lia].
-        -- apply (some_entry _ j). rewrite get_upd_same; [discriminate|lia].
-      * apply (M_ext c0 j s); [eapply bcast_sub_ext; reflexivity| |exact M].
-        right. eexists. split; [reflexivity|]. split; [reflexivity|]. left. cbn [is_call]. now apply Nat.eqb_neq.
-  - (* RunCall of another runnable *)
-    destruct (Nat.eq_dec i j) as [->|N]; [congruence|].
-    apply (M_ext c0 j s); [apply same_sub_ext; reflexivity| |exact M].
+  all: try (apply (N_ext c0 j s); [apply same_sub_N; reflexivity|exact (fun H => H)|hn_other|exact N]; fail).
+  (* the runnable goroutines move: no new store for j *)
+  all: try (apply (N_ext c0 j s); [apply same_sub_N; reflexivity|stored_tac i j|hn_other|exact N]; fail).
+  - (* startRunnable of a Stateable runnable: store and broadcast *)
+    apply andb_true_iff in Heqb as [Li Sti]. apply Nat.ltb_lt in Li.
+    destruct (Nat.eq_dec i j) as [->|Nij].
+    + eapply (N_store c c0 j s); [exact Hre|assumption|reflexivity|reflexivity| | |exact K].
+      * unfold has_entry. change (nth j (upd (smap s) j (Some (cur_at s j))) None)
+          with (get None (upd (smap s) j (Some (cur_at s j))) j).
+        rewrite get_upd_same; [reflexivity|lia].
+      * apply (some_entry _ j). rewrite get_upd_same; [discriminate|lia].
+    + apply (N_ext c0 j s); [eapply bcast_sub_N; [exact Hre|reflexivity]|stored_tac i j|left; reflexivity|exact N].
+  - (* RunCall of a runnable that is not Stateable *)
+    apply andb_true_iff in Heqb as [_ Sti]. apply negb_true_iff in Sti.
+    destruct (Nat.eq_dec i j) as [->|Nij]; [congruence|].
+    apply (N_ext c0 j s); [apply same_sub_N; reflexivity|stored_tac i j| |exact N].
     right. eexists. split; [reflexivity|]. split; [reflexivity|]. left. cbn [is_call]. now apply Nat.eqb_neq.
+  - (* RunCall after the store *)
+    destruct (Nat.eq_dec i j) as [->|Nij].
+    + apply (N_call c0 j s); [reflexivity|reflexivity| |exact K|exact N].
+      intros _. rewrite Heqr. exact Logic.I.
+    + apply (N_ext c0 j s); [apply same_sub_N; reflexivity|stored_tac i j| |exact N].
+      right. eexists. split; [reflexivity|]. split; [reflexivity|]. left. cbn [is_call]. now apply Nat.eqb_neq.
   - (* a monitor's broadcast *)
-    apply (M_ext c0 j s); [eapply bcast_sub_ext; reflexivity|left; reflexivity|exact M].
+    apply (N_ext c0 j s); [eapply bcast_sub_N; [exact Hre|reflexivity]|exact (fun H => H)|left; reflexivity|exact N].
   - (* Subscribe c1 *)
-    pose proof (find_sub_snoc c0 {| sub_id := c1; sub_buf := []; sub_started := false; sub_registered := false;
-                                    sub_cancelled := false; sub_closed := false |} (subs s)) as Hf.
+    apply (N_ext c0 j s); [|exact (fun H => H)|hn_other|exact N].
+    intros b' Hf' Hst'. simp_st. rewrite find_sub_snoc in Hf'.
     destruct (find_sub c0 (subs s)) as [b|] eqn:Hb.
-    + apply (M_ext c0 j s); [apply same_sub_ext; simp_st; now rewrite Hf, Hb|he_other|exact M].
-    + intros p q b Hsp Hr _ _. exfalso.
-      pose proof (split_prefix_in _ (is_recv c0) _ _ _ Hsp Hr) as X. rewrite existsb_rev' in X. simp_st.
-      cbn [existsb is_recv orb] in X. destruct (k_rcv _ _ K X) as (b2 & Hb2 & _). congruence.
+    + injection Hf' as <-. exists b, []. rewrite app_nil_r. auto.
+    + cbn [sub_id] in Hf'. destruct (Nat.eqb c0 c1); [|discriminate Hf'].
+      injection Hf' as <-. discriminate Hst'.
   - (* SubDo c1 *)
-    destruct (Nat.eq_dec c1 c0) as [->|N].
-    + intros p q b Hsp Hr _ _. exfalso.
-      pose proof (split_prefix_in _ (is_recv c0) _ _ _ Hsp Hr) as X. rewrite existsb_rev' in X. simp_st.
-      destruct (k_rcv _ _ K X) as (b2 & Hb2 & S2). congruence.
-    + apply (M_ext c0 j s); [apply same_sub_ext; simp_st; now apply find_sub_set_other|he_other|exact M].
+    destruct (Nat.eq_dec c1 c0) as [->|Nc].
+    + intros b' Hf' _ Hsto.
+      assert (X : find_sub c0 (subs (set_smap s (smap s)
+                   (set_sub {| sub_id := c0; sub_buf := [smap s]; sub_started := true; sub_registered := true;
+                               sub_cancelled := sub_cancelled s0; sub_closed := false |} (subs s)))) = Some _) by set_same.
+      rewrite X in Hf'. injection Hf' as <-. left. left. cbn [sub_buf existsb]. apply orb_true_iff. left.
+      unfold rn_at in Hsto. simp_st.
+      pose proof (im_entry _ _ IM j (stateable_lt _ _ Hst) Hst Hsto) as Hent.
+      unfold has_entry. unfold smap_at, get in Hent. destruct (nth j (smap s) None); [reflexivity|congruence].
+    + apply (N_ext c0 j s); [apply same_sub_N; simp_st; now apply find_sub_set_other|exact (fun H => H)|hn_other|exact N].
   - (* SubRecv c1 m *)
-    destruct (Nat.eq_dec c1 c0) as [->|N].
+    destruct (Nat.eq_dec c1 c0) as [->|Nc].
     + match goal with E : smap_eqb _ _ = true |- _ => apply smap_eqb_eq in E; subst end.
-      eapply (M_recv c0 j s); [eassumption|eassumption|set_same|reflexivity|reflexivity|exact M].
-    + apply (M_ext c0 j s); [apply same_sub_ext; simp_st; now apply find_sub_set_other| |exact M].
+      eapply (N_recv c0 j s); [eassumption|eassumption|set_same|reflexivity|reflexivity|reflexivity|reflexivity|reflexivity|exact N].
+    + apply (N_ext c0 j s); [apply same_sub_N; simp_st; now apply find_sub_set_other|exact (fun H => H)| |exact N].
       right. eexists. split; [reflexivity|]. split; [cbn [is_recv]; now apply Nat.eqb_neq|left; reflexivity].
   - (* SubCancel c1 *)
-    destruct (Nat.eq_dec c1 c0) as [->|N].
-    + apply (M_ext c0 j s); [|he_other|exact M].
-      intros b' Hb'. exists s0, []. split; [assumption|].
+    destruct (Nat.eq_dec c1 c0) as [->|Nc].
+    + apply (N_ext c0 j s); [|exact (fun H => H)|hn_other|exact N].
+      intros b' Hb' Hst'. exists s0, [].
       assert (X : find_sub c0 (subs (with_hist (set_smap s (smap s)
                    (set_sub {| sub_id := c0; sub_buf := sub_buf s0; sub_started := sub_started s0;
                                sub_registered := sub_registered s0; sub_cancelled := true;
                                sub_closed := sub_closed s0 |} (subs s))) (ESubCancel c0))) = Some _) by set_same.
-      rewrite X in Hb'. injection Hb' as <-. cbn [sub_buf]. now rewrite app_nil_r.
-    + apply (M_ext c0 j s); [apply same_sub_ext; simp_st; now apply find_sub_set_other|he_other|exact M].
+      rewrite X in Hb'. injection Hb' as <-. cbn in *. rewrite app_nil_r. auto.
+    + apply (N_ext c0 j s); [apply same_sub_N; simp_st; now apply find_sub_set_other|exact (fun H => H)|hn_other|exact N].
   - (* SubUnreg c1 *)
-    destruct (Nat.eq_dec c1 c0) as [->|N].
-    + apply (M_ext c0 j s); [|he_other|exact M].
-      intros b' Hb'. exists s0, []. split; [assumption|].
+    destruct (Nat.eq_dec c1 c0) as [->|Nc].
+    + repeat match goal with E : _ && _ = true |- _ => apply andb_true_iff in E as [? ?] end.
+      apply (N_ext c0 j s); [|exact (fun H => H)|hn_other|exact N].
+      intros b' Hb' Hst'. exists s0, [].
       assert (X : find_sub c0 (subs (set_smap s (smap s)
                    (set_sub {| sub_id := c0; sub_buf := sub_buf s0; sub_started := true;
                                sub_registered := false; sub_cancelled := true;
                                sub_closed := true |} (subs s)))) = Some _) by set_same.
-      rewrite X in Hb'. injection Hb' as <-. cbn [sub_buf]. now rewrite app_nil_r.
-    + apply (M_ext c0 j s); [apply same_sub_ext; simp_st; now apply find_sub_set_other|he_other|exact M].
+      rewrite X in Hb'. injection Hb' as <-. cbn in *. rewrite app_nil_r. auto.
+    + apply (N_ext c0 j s); [apply same_sub_N; simp_st; now apply find_sub_set_other|exact (fun H => H)|hn_other|exact N].
 Qed.
 
 Lemma Entry_reachable c c0 j s :
-  stateable (spec c j) = true -> reachable_sup c s -> SubK c0 s /\ Mprop c0 j s.
+  stateable (spec c j) = true -> reachable_sup c s -> SubK c0 s /\ Nprop c0 j s.
 Proof.
   intros Hst Hre.
-  assert (G : forall s, reachable_sup c s -> reachable_sup c s /\ SubK c0 s /\ Mprop c0 j s).
+  assert (G : forall s, reachable_sup c s -> reachable_sup c s /\ SubK c0 s /\ Nprop c0 j s).
   { apply sup_inv.
-    - split; [exists []; reflexivity|]. split; [apply SubK_init|]. intros p q b H. discriminate H.
-    - intros s0 l s1 (Hr & K & M) Hs. split; [eapply reachable_step; eassumption|].
-      split; [eapply SubK_step; eassumption|eapply M_step; eassumption]. }
+    - split; [exists []; reflexivity|]. split; [apply SubK_init|]. intros b H. discriminate H.
+    - intros s0 l s1 (Hr & K & N) Hs. split; [eapply reachable_step; eassumption|].
+      split; [eapply SubK_step; eassumption|eapply N_step; eassumption]. }
   apply G. exact Hre.
 Qed.
 
-(* C06: a subscriber that had taken a snapshot and was not cancelled when Stateable runnable j was
-   started has, by the time it sees its channel closed, taken a snapshot with j's entry - unless it
-   took ten or more snapshots after the start (its channel may have been full) *)
+(* C06: if subscriber c was not cancelled before Stateable runnable j's Run was invoked, then by the
+   time c sees its channel closed it has taken a snapshot with j's entry - unless it took ten or more
+   snapshots (its channel may have been full when startRunnable broadcast) *)
 Theorem sup_c06_sub_entry c ls s :
   run (step c) (init c) ls = Some s -> c06_sub_entry c (obs_trace obs ls) = true.
 Proof.
@@ -396,13 +510,21 @@ Proof.
   unfold step in Hs. cbn [step0] in Hs.
   destruct (find_sub c0 (subs s0)) as [b|] eqn:Hb; [|discriminate Hs].
   destruct (sub_buf b) eqn:Hbuf; [|discriminate Hs].
+  destruct (sub_closed b) eqn:Hcl; [|discriminate Hs].
   apply forallb_forall. intros j _. destruct (stateable (spec c j)) eqn:Hst; [|reflexivity]. cbn [negb orb].
-  destruct (Entry_reachable c c0 j s0 Hst Hre) as [_ M].
+  destruct (Entry_reachable c c0 j s0 Hst Hre) as [_ N].
   unfold sub_entry_ok. destruct (split_at (is_call j) (rev (hist s0))) as [[p q]|] eqn:E0; [|reflexivity].
-  destruct (existsb (is_recv c0) p) eqn:Hr; [|reflexivity].
-  destruct (existsb (is_cancel c0) p) eqn:Hc; [reflexivity|]. cbn [negb orb].
-  destruct (M p q b E0 Hr Hc Hb) as [X|[X|X]].
-  - rewrite Hbuf in X. discriminate X.
-  - now rewrite X.
-  - rewrite Hbuf in X. cbn [length] in X. apply orb_true_iff. right. apply Nat.leb_le. lia.
+  assert (Hsto : stored (rn_at s0 j)).
+  { apply ran_stored, (ig_called _ _ (InvGate_reachable _ _ Hre)).
+    rewrite <- is_call_mem, <- existsb_rev'.
+    destruct (split_at_parts _ _ _ _ E0) as (x & -> & Fx). rewrite existsb_app. cbn [existsb]. rewrite Fx.
+    apply orb_true_iff. right. reflexivity. }
+  assert (Hsta : sub_started b = true)
+    by (apply (InvCl_reachable _ _ Hre b (find_sub_In _ _ _ Hb)); now left).
+  destruct (N b Hb Hsta Hsto) as [[G|[G|G]]|B].
+  - rewrite Hbuf in G. discriminate G.
+  - rewrite existsb_rev', G. apply orb_true_iff. left. apply orb_true_r.
+  - rewrite Hbuf in G. cbn [length] in G. apply orb_true_iff. right. apply Nat.leb_le.
+    rewrite count_if_rev. lia.
+  - unfold Bad in B. rewrite E0 in B. now rewrite B.
 Qed.
